@@ -82,6 +82,11 @@ class C14(Prop):
                 b["events"] = b["events"] + [[None, FUTURE + rng.randrange(0, 9) * 1_000_000, rng.choice([0, 1_000_000]), storegen.LABELS[0]]
                                              for _ in range(rng.randint(1, 3))]
                 b["events"].append([None, T0, FUTURE - T0 + 5_000_000, storegen.LABELS[1]])  # begins in the past, ends in 2149
+            if rng.random() < 0.15 and buckets:
+                # an event that was left running "for ever": a whole number of seconds (which the legacy store's float keeps
+                # exactly) reaching beyond the year 9999, where no datetime can follow
+                b = rng.choice(buckets)
+                b["events"] = b["events"] + [[None, T0 + rng.randrange(0, 50) * 1_000_000, rng.choice([9000, 12000, 250000]) * 31_557_600 * 1_000_000, storegen.LABELS[0]]]
             if rng.random() < 0.25 and buckets:
                 # runs of events whose data are equal for Python (1 == True == 1.0) and different JSON values
                 b = rng.choice(buckets)
